@@ -343,3 +343,103 @@ void harness(void) {
 	if (res != KSI_OK && g_cbl_calls == 2) REACH("failed after the first processor's node was joined");
 }
 #endif
+
+#ifdef H_calc
+/* Plain mode, the 256-slot loop unwound completely; at most three subtrees (slots 0..2).  calculateHighestLevel
+ * against the reference fold of spec/tree.h and against the contract used by C19.addLeaf (result >= level, no
+ * state change). */
+void harness(void) {
+	unsigned level = nondet_uint(), r; long long want; KSI_TreeNode *s0, *s1, *s2;
+	if (!mk_builder_small()) return;
+	if (level > 0xffff) return;                       /* addLeaf passes an unsigned short */
+	s0 = g_tb.stack[0]; s1 = g_tb.stack[1]; s2 = g_tb.stack[2];
+	r = calculateHighestLevel(nondet_bool() ? &g_tb : NULL, level);
+	REACH("calculateHighestLevel returns");
+	want = level;
+	if (g_n0 != NULL) want = spec_tree_height_step(want, g_n0->level);
+	if (g_n1 != NULL) want = spec_tree_height_step(want, g_n1->level);
+	if (g_n2 != NULL) want = spec_tree_height_step(want, g_n2->level);
+	__CPROVER_assert(r == 0 || (long long)r == want, "height pre-check: the reference fold max(slot, running) + 1 over the occupied slots (0 for no builder)");
+	__CPROVER_assert(r == 0 || r >= level, "height pre-check: never below the input level");
+	__CPROVER_assert(g_tb.stack[0] == s0 && g_tb.stack[1] == s1 && g_tb.stack[2] == s2 && g_tb.rootNode == NULL, "height pre-check: the builder is not changed");
+	/* sufficiency for the close-time merge: a subtree of `level` in a lower slot merged with these slots gives at most r */
+	if (r != 0 && g_n0 == NULL && g_n1 != NULL && g_n2 != NULL)
+		__CPROVER_assert((long long)r >= spec_tree_close_step(spec_tree_close_step(level, g_n1->level), g_n2->level), "height pre-check bounds the close-time root level");
+	if (r == level + 3) REACH("three subtrees counted");
+}
+#endif
+
+#ifdef H_lwo
+/* levelWithOverhead over a model processor list of 0..2 processors (plain mode) */
+static KSI_TreeBuilderLeafProcessor g_cb[2];
+static size_t g_cbl_len;
+static KSI_LIST(KSI_TreeBuilderLeafProcessor) g_cbl;
+static size_t cbl_stub_length(KSI_LIST(KSI_TreeBuilderLeafProcessor) *l) { return g_cbl_len; }
+static int cbl_stub_elementAt(KSI_LIST(KSI_TreeBuilderLeafProcessor) *l, size_t pos, KSI_TreeBuilderLeafProcessor **o) {
+	if (pos >= g_cbl_len) return KSI_BUFFER_OVERFLOW;
+	*o = &g_cb[pos];
+	return KSI_OK;
+}
+void harness(void) {
+	unsigned short in = (unsigned short)nondet_uint(), out = 12345; int res; unsigned sum;
+	if (in > 0xff) return;          /* call site (addLeaf): the level has been checked to be 0..255 */
+	g_tb.ctx = &g_ctx_obj;
+	g_cb[0].levelOverhead = nondet_uchar(); g_cb[1].levelOverhead = nondet_uchar();
+	g_cbl_len = nondet_size();
+	if (g_cbl_len > 2) return;
+	memset(&g_cbl, 0, sizeof(g_cbl));
+	g_cbl.length = cbl_stub_length; g_cbl.elementAt = cbl_stub_elementAt;
+	g_tb.cbList = nondet_bool() ? &g_cbl : NULL;
+	res = levelWithOverhead(&g_tb, in, &out);
+	REACH("levelWithOverhead returns");
+	sum = in;
+	if (g_tb.cbList != NULL && g_cbl_len >= 1) sum += g_cb[0].levelOverhead;
+	if (g_tb.cbList != NULL && g_cbl_len >= 2 && sum <= 0xff) sum += g_cb[1].levelOverhead;
+	__CPROVER_assert((res == KSI_OK) == (sum <= 0xff || (g_tb.cbList == NULL || g_cbl_len == 0)), "levelWithOverhead: accepted iff every partial sum stays within 0..255 (no processors: the input is passed on)");
+	__CPROVER_assert(res == KSI_OK ? (out == sum && out >= in) : out == 12345, "levelWithOverhead: input level plus the overheads of all processors; receiver untouched on refusal");
+	if (res == KSI_OK && g_cbl_len == 2 && out == 255) REACH("two overheads add up to 255");
+	if (res != KSI_OK) REACH("level overflow refused");
+}
+#endif
+
+#ifdef H_two_leaves
+/* Plain mode, bounded: an empty builder (no processors, no maximum level) takes two or three leaves through the
+ * real addLeaf / processAndInsertNode / insertNode / join; then close.  Checks the canonical left-to-right shape:
+ * the older leaf is the LEFT child (this is what a swapped join in insertNode breaks). */
+void harness(void) {
+	KSI_DataHash *h1 = malloc(sizeof(KSI_DataHash)), *h2 = malloc(sizeof(KSI_DataHash)), *h3 = malloc(sizeof(KSI_DataHash));
+	KSI_TreeLeafHandle *l1 = NULL, *l2 = NULL, *l3 = NULL; int lv1 = nondet_int(), lv2 = nondet_int(), lv3 = nondet_int(), r1, r2, r3 = -1; int three = nondet_bool();
+	if (h1 == NULL || h2 == NULL || h3 == NULL) return;
+	h1->ref = 1; h2->ref = 1; h3->ref = 1; h1->ctx = NULL; h2->ctx = NULL; h3->ctx = NULL;
+	g_tb.ctx = &g_ctx_obj; g_tb.ref = 1; g_tb.rootNode = NULL; g_tb.algo = KSI_HASHALG_SHA2_256; g_tb.cbList = NULL; g_tb.hsr = &g_hsr; g_tb.maxTreeLevel = 0;
+	ZERO64(0) ZERO64(64) ZERO64(128) ZERO64(192)
+	g_live = 0; g_alloc_failed = 0; tr_init();
+	r1 = addLeaf(&g_tb, h1, NULL, lv1, &l1);
+	if (r1 != KSI_OK) return;
+	__CPROVER_assert(g_tb.stack[0] == l1->leafNode && l1->leafNode->level == (unsigned)lv1 && lv1 >= 0 && lv1 <= 0xff, "first leaf: slot 0 holds its node, level as given (0..255)");
+	r2 = addLeaf(&g_tb, h2, NULL, lv2, &l2);
+	REACH("second leaf processed");
+	if (r2 != KSI_OK) {
+		__CPROVER_assert(g_tb.stack[0] == l1->leafNode && g_tb.stack[1] == NULL && l1->leafNode->parent == NULL && g_live == 2, "second leaf refused: the first leaf is untouched, nothing is kept");
+		if (g_alloc_failed == 0 && !g_tr_failed) { __CPROVER_assert(!spec_tree_join_ok(lv1, lv2), "second leaf refused without a fault: only because the level arithmetic leaves 0..255"); REACH("second leaf refused for level overflow"); }
+		return;
+	}
+	__CPROVER_assert(spec_tree_join_ok(lv1, lv2), "second leaf accepted: the level arithmetic stays in 0..255");
+	__CPROVER_assert(g_tb.stack[0] == NULL && g_tb.stack[1] != NULL && g_tb.stack[2] == NULL, "two leaves: one subtree, in slot 1");
+	__CPROVER_assert(g_tb.stack[1]->leftChild == l1->leafNode && g_tb.stack[1]->rightChild == l2->leafNode, "two leaves: the OLDER leaf is the left child");
+	__CPROVER_assert(l1->leafNode->parent == g_tb.stack[1] && l2->leafNode->parent == g_tb.stack[1] && g_tb.stack[1]->parent == NULL, "two leaves: parent links");
+	__CPROVER_assert((long long)g_tb.stack[1]->level == spec_tree_join_level(lv1, lv2), "two leaves: level = max + 1");
+	if (three) {
+		r3 = addLeaf(&g_tb, h3, NULL, lv3, &l3);
+		if (r3 != KSI_OK) return;
+		__CPROVER_assert(g_tb.stack[0] == l3->leafNode && g_tb.stack[1]->leftChild == l1->leafNode, "three leaves: the third waits in slot 0, the pair is untouched");
+	}
+	if (KSI_TreeBuilder_close(&g_tb) != KSI_OK) return;
+	if (three) {
+		__CPROVER_assert(g_tb.rootNode->leftChild == l1->leafNode->parent && g_tb.rootNode->rightChild == l3->leafNode, "closed: ((leaf1, leaf2), leaf3) - left to right");
+		REACH("three leaves closed");
+	} else {
+		__CPROVER_assert(g_tb.rootNode == l1->leafNode->parent, "closed: the pair is the root");
+	}
+}
+#endif
